@@ -333,3 +333,137 @@ Section Blocks4.
     Qed.
   End Unplace.
 End Blocks4.
+
+(* ================= lists of blocks ================= *)
+Lemma Forall2_perm_pairs {A B} (R : A -> B -> Prop) l l' : Permutation l l' -> forall m, Forall2 R l m ->
+  exists m', Forall2 R l' m' /\ Permutation (combine l m) (combine l' m').
+Proof.
+  induction 1 as [|x l l' _ IH|x y l|l1 l2 l3 _ IH1 _ IH2]; intros m H.
+  - inversion H; subst. exists []. split; constructor.
+  - inversion H as [|? b ? m0 Hxb Hl]; subst. destruct (IH m0 Hl) as (m' & F & P). exists (b :: m'). split; [constructor; assumption|cbn [combine]; constructor; exact P].
+  - inversion H as [|? b ? m0 Hyb Hl]; subst. inversion Hl as [|? c ? m1 Hxc Hl']; subst. exists (c :: b :: m1). split; [repeat constructor; assumption|cbn [combine]; apply perm_swap].
+  - destruct (IH1 m H) as (m2 & F2 & P2). destruct (IH2 m2 F2) as (m3 & F3 & P3). exists m3. split; [exact F3|eapply perm_trans; eauto].
+Qed.
+Lemma seg_app_intro rho k a b : seg rho k a -> seg rho (k + length a) b -> seg rho k (a ++ b).
+Proof.
+  intros Ha Hb j w E. destruct (Nat.lt_ge_cases j (length a)) as [Hlt|Hge].
+  - rewrite nth_error_app1 in E by exact Hlt. apply Ha, E.
+  - rewrite nth_error_app2 in E by exact Hge. replace (k + j)%nat with (k + length a + (j - length a))%nat by lia. apply Hb, E.
+Qed.
+
+Section Lists.
+  Variable call : ident -> graph -> list value -> res (value * graph).
+  Variable okfn : ident -> Prop.
+  Hypothesis Hcall : forall f, okfn f -> call_ok call f.
+  Variable n0 : N.
+  Notation dok := (delta_ok ea0 okfn n0 n0 0).
+  Notation nn d := (N.of_nat (length (d_nodes d))).
+  Notation cden := (cden call).
+
+  Fixpoint rlay (g : N) (ds : list delta) (Xs : list cX) : list value :=
+    match ds, Xs with d :: ds', X :: Xs' => map (vren (shg n0 g)) (x_r X) ++ rlay (g + nn d) ds' Xs' | _, _ => [] end.
+  Fixpoint alay (g : N) (ds : list delta) (Xs : list cX) : list (list aop) :=
+    match ds, Xs with d :: ds', X :: Xs' => map (map (are (shg n0 g))) (x_a X) ++ alay (g + nn d) ds' Xs' | _, _ => [] end.
+  Definition osegs (ds : list delta) (Xs : list cX) : list oseg := map (fun dx => oseg_of (fst dx) (snd dx)) (combine ds Xs).
+
+  Lemma osegs_cons d ds X Xs : osegs (d :: ds) (X :: Xs) = oseg_of d X :: osegs ds Xs. Proof. reflexivity. Qed.
+  Lemma alay_layA : forall ds Xs g, concat (alay g ds Xs) = layA n0 g (osegs ds Xs).
+  Proof.
+    induction ds as [|d ds IH]; intros [|X Xs] g; try reflexivity. rewrite osegs_cons. cbn [alay layA]. rewrite concat_app, IH. f_equal.
+    unfold oseg_of. cbn [o_a]. rewrite concat_map. reflexivity.
+  Qed.
+
+  Lemma dcat_cons x l : dcat (x :: l) = dapp x (dcat l). Proof. reflexivity. Qed.
+
+  Lemma compose_list : forall ds Xs, Forall2 cden ds Xs -> Forall dok ds -> forall g k rho, n0 <= g -> seg rho k (rlay g ds Xs) ->
+    (forall j th, nth_error (d_thunks (dcat (lay n0 0 g (N.of_nat k) ds))) j = Some th -> thunk_ok call rho (k + j) th) /\
+    Forall2 (den_edge call rho) (d_edges (dcat (lay n0 0 g (N.of_nat k) ds))) (layE n0 g (osegs ds Xs)) /\
+    Forall2 (den_astmt call rho) (d_attrs (dcat (lay n0 0 g (N.of_nat k) ds))) (alay g ds Xs) /\
+    Forall (print_ok call rho) (d_prints (dcat (lay n0 0 g (N.of_nat k) ds))) /\
+    Forall (oseg_ok n0) (osegs ds Xs).
+  Proof.
+    induction 1 as [|d X ds Xs HX HF IH]; intros Hok g k rho Hg Hs.
+    - cbn [lay dcat fold_right dnil d_thunks d_edges d_attrs d_prints osegs combine map layE alay]. split; [intros j th E; destruct j; discriminate|]. repeat split; constructor.
+    - inversion Hok as [|? ? Hd Hrest]; subst. cbn [rlay] in Hs. apply seg_app in Hs. destruct Hs as [Hs1 Hs2]. rewrite map_length in Hs2.
+      assert (Hlen : length (x_r X) = length (d_thunks d)) by apply HX. rewrite Hlen in Hs2.
+      cbn [lay]. rewrite dcat_cons. cbn [dapp d_thunks d_edges d_attrs d_prints]. rewrite <- Nat2N.inj_add.
+      destruct (IH Hrest (g + nn d) (k + length (d_thunks d))%nat rho ltac:(lia) Hs2) as (T2 & E2 & A2 & P2 & O2).
+      pose proof (place_thunks call okfn Hcall n0 d X g k rho Hd HX Hg Hs1) as T1.
+      destruct (place_edges call okfn Hcall n0 d X g k rho Hd HX Hg Hs1) as [E1 _].
+      destruct (place_attrs call okfn Hcall n0 d X g k rho Hd HX Hg Hs1) as [A1 _].
+      pose proof (place_prints call okfn Hcall n0 d X g k rho Hd HX Hg Hs1) as P1.
+      pose proof (place_oseg call okfn Hcall n0 d X g k rho Hd HX Hg Hs1) as O1.
+      rewrite osegs_cons. cbn [layE alay]. split; [|split; [|split; [|split]]].
+      + intros j th E. assert (Hm : length (d_thunks (dren (shg n0 g) (shl 0 (N.of_nat k)) d)) = length (d_thunks d)) by (cbn [dren d_thunks]; apply map_length).
+        destruct (Nat.lt_ge_cases j (length (d_thunks d))) as [Hlt|Hge].
+        * rewrite nth_error_app1 in E by lia. apply T1, E.
+        * rewrite nth_error_app2 in E by lia. rewrite Hm in E. replace (k + j)%nat with (k + length (d_thunks d) + (j - length (d_thunks d)))%nat by lia. apply T2, E.
+      + apply Forall2_app; [exact E1|exact E2].
+      + apply Forall2_app; [exact A1|exact A2].
+      + apply Forall_app. split; assumption.
+      + constructor; assumption.
+  Qed.
+
+  Lemma decompose_list : forall ds, Forall dok ds -> forall g k rho eA aA, n0 <= g ->
+    (forall j th, nth_error (d_thunks (dcat (lay n0 0 g (N.of_nat k) ds))) j = Some th -> thunk_ok call rho (k + j) th) ->
+    Forall2 (den_edge call rho) (d_edges (dcat (lay n0 0 g (N.of_nat k) ds))) eA ->
+    Forall2 (den_astmt call rho) (d_attrs (dcat (lay n0 0 g (N.of_nat k) ds))) aA ->
+    Forall (print_ok call rho) (d_prints (dcat (lay n0 0 g (N.of_nat k) ds))) ->
+    exists Xs, Forall2 cden ds Xs /\ seg rho k (rlay g ds Xs) /\ eA = layE n0 g (osegs ds Xs) /\ aA = alay g ds Xs.
+  Proof.
+    induction ds as [|d ds IH]; intros Hok g k rho eA aA Hg HT HE HA HP.
+    - cbn [lay dcat fold_right dnil d_edges d_attrs] in HE, HA. inversion HE; inversion HA; subst. exists []. split; [constructor|]. split; [intros j w E; destruct j; discriminate|]. split; reflexivity.
+    - inversion Hok as [|? ? Hd Hrest]; subst. cbn [lay] in HT, HE, HA, HP. rewrite dcat_cons in HT, HE, HA, HP. cbn [dapp d_thunks d_edges d_attrs d_prints] in HT, HE, HA, HP.
+      rewrite <- Nat2N.inj_add in HT, HE, HA, HP.
+      apply Forall2_app_inv_l in HE. destruct HE as (e1 & e2 & HE1 & HE2 & ->). apply Forall2_app_inv_l in HA. destruct HA as (a1 & a2 & HA1 & HA2 & ->).
+      apply Forall_app in HP. destruct HP as [HP1 HP2].
+      assert (Hm : length (d_thunks (dren (shg n0 g) (shl 0 (N.of_nat k)) d)) = length (d_thunks d)) by (cbn [dren d_thunks]; apply map_length).
+      assert (HT1 : forall j th', nth_error (d_thunks (dren (shg n0 g) (shl 0 (N.of_nat k)) d)) j = Some th' -> thunk_ok call rho (k + j) th').
+      { intros j th' E. apply HT. rewrite nth_error_app1; [exact E|]. apply nth_error_Some. congruence. }
+      assert (HT2 : forall j th, nth_error (d_thunks (dcat (lay n0 0 (g + nn d) (N.of_nat (k + length (d_thunks d))) ds))) j = Some th -> thunk_ok call rho (k + length (d_thunks d) + j) th).
+      { intros j th E. replace (k + length (d_thunks d) + j)%nat with (k + (length (d_thunks d) + j))%nat by lia. apply HT. rewrite nth_error_app2 by lia. rewrite Hm. rewrite <- E. f_equal. lia. }
+      destruct (IH Hrest (g + nn d) (k + length (d_thunks d))%nat rho e2 a2 ltac:(lia) HT2 HE2 HA2 HP2) as (Xs & HF & Hs2 & -> & ->).
+      exists (unX n0 d g k rho e1 a1 :: Xs).
+      pose proof (unplace_cden call okfn Hcall n0 d g k rho e1 a1 Hd Hg HT1 HE1 HA1 HP1) as HX.
+      split; [constructor; [exact HX|exact HF]|]. split; [|split].
+      + cbn [rlay]. apply seg_app_intro; [apply (unplace_rho call okfn Hcall n0 d g k rho Hd Hg HT1)|].
+        rewrite map_length. replace (length (x_r (unX n0 d g k rho e1 a1))) with (length (d_thunks d)) by (symmetry; apply HX). exact Hs2.
+      + rewrite osegs_cons. cbn [layE]. f_equal. apply (unplace_edges call okfn Hcall n0 d g k rho e1 a1 Hd Hg HT1 HE1).
+      + cbn [alay]. f_equal. apply (unplace_attrs call okfn Hcall n0 d g k rho e1 a1 Hd Hg HT1 HA1).
+  Qed.
+
+  Lemma rlay_length : forall ds Xs, Forall2 cden ds Xs -> forall g, length (rlay g ds Xs) = length (d_thunks (dcat (lay n0 0 g 0 ds))).
+  Proof.
+    assert (G : forall ds Xs, Forall2 cden ds Xs -> forall g k, length (rlay g ds Xs) = length (d_thunks (dcat (lay n0 0 g k ds)))).
+    { induction 1 as [|d X ds Xs HX _ IH]; intros g k; [reflexivity|]. cbn [rlay lay]. rewrite dcat_cons. cbn [dapp d_thunks dren]. rewrite !app_length, !map_length, (IH (g + nn d) (k + N.of_nat (length (d_thunks d)))).
+      f_equal. apply HX. }
+    intros ds Xs H g. apply G, H.
+  Qed.
+
+  (* validity of the laid-out state: acyclic store, statements sorted by kind, in the fragment *)
+  Lemma lay_valid : forall ds, Forall dok ds -> forall g k, n0 <= g ->
+    (forall j th, nth_error (d_thunks (dcat (lay n0 0 g (N.of_nat k) ds))) j = Some th -> thall okfn top (fun l => l < N.of_nat (k + j)) th) /\
+    (forall M, (k + length (d_thunks (dcat (lay n0 0 g (N.of_nat k) ds))) <= M)%nat ->
+       Forall (fun st => is_estmt st /\ lsall ea0 okfn top (fun l => l < N.of_nat M) st) (d_edges (dcat (lay n0 0 g (N.of_nat k) ds))) /\
+       Forall (fun st => is_astmt st /\ lsall ea0 okfn top (fun l => l < N.of_nat M) st) (d_attrs (dcat (lay n0 0 g (N.of_nat k) ds))) /\
+       Forall (fun st => is_pstmt st /\ lsall ea0 okfn top (fun l => l < N.of_nat M) st) (d_prints (dcat (lay n0 0 g (N.of_nat k) ds)))) /\
+    Forall nplain (d_nodes (dcat (lay n0 0 g (N.of_nat k) ds))).
+  Proof.
+    induction ds as [|d ds IH]; intros Hok g k Hg.
+    - cbn [lay dcat fold_right dnil d_thunks d_edges d_attrs d_prints d_nodes]. split; [intros j th E; destruct j; discriminate|]. split; [intros; repeat split; constructor|constructor].
+    - inversion Hok as [|? ? Hd Hrest]; subst. cbn [lay]. rewrite dcat_cons. cbn [dapp d_thunks d_edges d_attrs d_prints d_nodes dren]. rewrite <- Nat2N.inj_add.
+      destruct (IH Hrest (g + nn d) (k + length (d_thunks d))%nat ltac:(lia)) as (T2 & S2 & N2). destruct Hd as (Hn & Ht & He & Ha & Hp). split; [|split].
+      + intros j th E. destruct (Nat.lt_ge_cases j (length (d_thunks d))) as [Hlt|Hge].
+        * rewrite nth_error_app1 in E by (rewrite map_length; exact Hlt). rewrite nth_error_map in E. destruct (nth_error (d_thunks d) j) as [th0|] eqn:E0; [|discriminate]. cbn in E. inversion E; subst th.
+          eapply (thall_thren okfn _ top _ (fun l => l < N.of_nat (k + j))); [intros; exact I| |apply (Ht j th0 E0)]. unfold shl. intros l. cbn. lia.
+        * rewrite nth_error_app2 in E by (rewrite map_length; exact Hge). rewrite map_length in E. replace (k + j)%nat with (k + length (d_thunks d) + (j - length (d_thunks d)))%nat by lia. apply T2, E.
+      + intros M HM. rewrite app_length, map_length in HM. destruct (S2 M ltac:(lia)) as (E2 & A2 & P2).
+        assert (G : forall (K : lstmt -> Prop) l, (forall st, K st -> K (lsren (shg n0 g) (shl 0 (N.of_nat k)) st)) ->
+                  Forall (fun st => K st /\ lsall ea0 okfn (fun i => i < n0 \/ n0 <= i /\ i < n0 + nn d) (fun l => 0 <= l /\ l < 0 + N.of_nat (length (d_thunks d))) st) l ->
+                  Forall (fun st => K st /\ lsall ea0 okfn top (fun l => l < N.of_nat M) st) (map (lsren (shg n0 g) (shl 0 (N.of_nat k))) l)).
+        { intros K l HK H. apply Forall_forall. intros y Hy. apply in_map_iff in Hy as (x & <- & Hx). rewrite Forall_forall in H. destruct (H x Hx) as [H1 H2]. split; [apply HK, H1|].
+          eapply (lsall_lsren ea0 okfn _ top _ (fun l => l < N.of_nat M)); [intros; exact I| |exact H2]. unfold shl. intros l0. cbn. lia. }
+        split; [|split]; (apply Forall_app; split; [|assumption]); apply G; try assumption; intros [] HK; exact HK.
+      + apply Forall_app. split; [exact Hn|exact N2].
+  Qed.
+End Lists.
